@@ -73,6 +73,7 @@ class Ctx:
         self.nocheck = 0
         self.axioms_done = set()
         self.axioms: List[Any] = []
+        self.lengths: List[Any] = []     # length terms of symbolic sequences (for reversed-index trigger hints)
 
     # -- symbols
     def fresh(self, name, sort):
@@ -307,6 +308,8 @@ def strip_goal(goal, hyps, out, depth=0):
     if depth > 6 or len(out) > 60:
         out.append((hyps, goal))
         return
+    while z3.is_not(goal) and z3.is_not(goal.arg(0)):
+        goal = goal.arg(0).arg(0)
     if z3.is_and(goal):
         for a in goal.children():
             strip_goal(a, hyps, out, depth + 1)
@@ -327,6 +330,8 @@ def strip_goal(goal, hyps, out, depth=0):
             consts.append(k)
             if goal.var_sort(i) == z3.IntSort():
                 extra.append(TR(k))
+                for L in c.lengths[:6]:
+                    extra.append(TR(L - 1 - k))
         body = z3.substitute_vars(goal.body(), *reversed(consts))
         strip_goal(body, hyps + extra, out, depth + 1)
         return
@@ -664,6 +669,12 @@ class SObj(Sym):
 
     def __setattr__(self, name, value):
         raise Unsupported(f"write to attribute {name} of an opaque symbolic object")
+
+    def __call__(self, *a, **k):
+        sch = OBJ_SCHEMAS.get(self.cls) or {}
+        if "__call__" not in sch:
+            raise Unsupported(f"call of an opaque object of class {self.cls!r}")
+        return sch["__call__"](self)(*a, **k)
 
     def __eq__(self, o):
         if isinstance(o, SObj):
